@@ -101,6 +101,11 @@ class ByteSem:
             tv = self._table_values(e, env)
             if tv is not None:
                 return tv
+        if k == "call" and e.get("fp") and not e.get("op") and len(e.get("args", [])) == 1 and self.mentions(e, env):
+            # a first-party unary byte function with a single return expression (to_lower(x) = x | 0x20)
+            av = self.vals(e["args"][0], env)
+            fv = self.fn_vals(e["callee"])
+            return {b: (None if av[b] is None else fv.get(av[b] & 0xFF)) for b in range(256)}
         if k in ("bin", "un") and self.mentions(e, env):
             # boolean-valued sub-expression used as an integer
             s = self.set_of(e, env)
@@ -178,6 +183,26 @@ class ByteSem:
             return frozenset(b for b in range(256) if v[b])
         raise Unsupported("not a byte predicate: " + X.show(e))
 
+    def fn_vals(self, key):
+        """{b -> value} of a first-party unary function over a byte with a single return expression."""
+        ck = ("vals", key)
+        if ck in self._pred_cache:
+            return self._pred_cache[ck]
+        f = self.facts.fn(key)
+        if f is None or len(f.get("params", [])) != 1 or not f.get("blocks"):
+            raise Unsupported("function %s is not a unary function with a body" % key)
+        rets = [s["e"] for b in f["blocks"] for s in b["stmts"] if s["k"] == "return"]
+        other = [s for b in f["blocks"] for s in b["stmts"] if s["k"] not in ("return",)]
+        if len(rets) != 1 or other:
+            raise Unsupported("function %s is not a single return expression" % key)
+        p0 = f["params"][0]
+        v = self.vals(rets[0], {p0["id"]: byte_identity(p0["ty"])})
+        if v is None:
+            raise Unsupported("function %s does not depend on its argument" % key)
+        v = {b: (None if x is None else _convert(x, f.get("ret") or "")) for b, x in v.items()}
+        self._pred_cache[ck] = v
+        return v
+
     def pred_set(self, key):
         """Byte set of a first-party single-parameter predicate (single return expression)."""
         if key in self._pred_cache:
@@ -192,8 +217,10 @@ class ByteSem:
             for s in b["stmts"]:
                 if s["k"] == "return":
                     rets.append(s["e"])
-                elif s["k"] == "expr" and not any(n.get("k") in ("call", "assign", "construct")
-                                                  for n in X.walk(s["e"])):
+                elif s["k"] == "expr" and not any(
+                        (n.get("k") in ("assign", "construct")) or
+                        (n.get("k") == "call" and not (n.get("fp") and len(n.get("args", [])) == 1 and not n.get("method")))
+                        for n in X.walk(s["e"])):
                     pass   # an operand of the short-circuit return expression, evaluated in its own block
                 else:
                     others += 1
